@@ -156,7 +156,22 @@ def check_state(cls, obj, model, after):
         out.append(V("aux-stale/%s/%s" % (after, cls),
                      "aux_data is not what is recomputed from proj_data (sin err %.3g vs type(obj)(proj_data), %.3g vs oracle)\n"
                      "aux_data\n%r\nrecomputed\n%r" % (e1, e2, obj.aux_data, re)))
+    elif cls == "H.TangentVector":
+        ora = oracle_aux(cls, np.array(model))
+        if tangent_sign_flip(obj.proj_data[..., 0, :], obj.aux_data[..., 1, :], model[..., 0, :], ora[..., 1, :]):
+            out.append(V("aux-stale/direction-reversed/%s/%s" % (after, cls),
+                         "the stored (point, vector) pair has the opposite relative sign to the expected tangent vector: the direction is reversed\n"
+                         "point rows\n%r\nvector rows\n%r\nexpected pair\n%r" % (obj.proj_data[..., 0, :], obj.aux_data[..., 1, :], ora)))
     return out
+
+
+def tangent_sign_flip(point, vector, ref_point, ref_vector):
+    """A tangent vector is the PAIR (point, vector) up to one common sign and positive scalings: rescaling the
+    two rows by factors of opposite sign reverses the direction although each row alone is projectively
+    unchanged.  Returns True when some unit has the relative sign flipped with respect to the reference."""
+    sp = np.sign(np.real(np.sum(np.asarray(point) * np.conjugate(np.asarray(ref_point)), axis=-1)))
+    sv = np.sign(np.real(np.sum(np.asarray(vector) * np.conjugate(np.asarray(ref_vector)), axis=-1)))
+    return bool(np.any(sp * sv < 0))
 
 
 class Watch:
@@ -183,6 +198,10 @@ class Watch:
                 out.append(V("query-moved/%s/%s/%s" % (query, name, cls), "%s moved the primary rows of %s:\n%r\nwere\n%r" % (query, name, o.proj_data, p0)))
             elif a0 is not None and (o.aux_data is None or np.shape(o.aux_data) != a0.shape or rows_err(o.aux_data, a0) > TOL):
                 out.append(V("query-moved/%s/%s-aux/%s" % (query, name, cls), "%s moved the derived rows of %s:\n%r\nwere\n%r" % (query, name, o.aux_data, a0)))
+            elif a0 is not None and type(o).__name__ == "TangentVector" and \
+                    tangent_sign_flip(o.proj_data[..., 0, :], o.aux_data[..., 1, :], p0[..., 0, :], a0[..., 1, :]):
+                out.append(V("query-moved/%s/%s-direction-reversed/%s" % (query, name, cls),
+                             "%s reversed the direction of the tangent vector %s (relative sign of point and vector rows)" % (query, name)))
 
 
 def run_queries(cls, obj, model, seed, nxt, root_array, cx=False):
